@@ -1,4 +1,4 @@
-import WfProofs.SseClientRun
+import WfProofs.SseClientLive
 
 /-!
 # C17 — the client's auto-reconnecting event stream delivers each event once
@@ -184,6 +184,141 @@ theorem _root_.C17_gives_up_only_over_budget (valid : List Char → Bool) (srv :
   rw [hgave] at h3
   rcases h3 with h | h <;> exact absurd h (by decide)
 
+/-! ## the log grows while the client streams -/
+
+/-- A history of the run's log as the scripted connections see it: every connection sees an
+extension of what the previous one saw (events appended between two connections or while one is
+open), and all of it is part of the final log `top`. -/
+structure Grows (script : List (Server × Conn)) (top : Server) : Prop where
+  chain : (script.map (·.1.log)).Pairwise (· <+: ·)
+  below : ∀ s ∈ script, s.1.log <+: top.log
+
+/-- once the handler's status is terminal nothing is appended any more -/
+def Settled (script : List (Server × Conn)) (top : Server) : Prop :=
+  ∀ s ∈ script, s.1.statusDone = true → s.1.log = top.log
+
+/-- `run` (one fixed log) is the constant history: everything proved of `runLive` holds of it. -/
+theorem _root_.C17_run_is_live (P : Params) (srv : Server) (st : CState) (conns : List Conn) :
+    run P srv st conns = runLive P st (conns.map fun c => (srv, c)) ∧
+    Grows (conns.map fun c => (srv, c)) srv ∧ Settled (conns.map fun c => (srv, c)) srv := by
+  refine ⟨run_eq_runLive srv conns st, ⟨?_, ?_⟩, ?_⟩
+  · rw [List.map_map]
+    apply List.pairwise_map.mpr
+    exact List.pairwise_of_forall (fun _ _ => List.prefix_refl _)
+  · intro s hs
+    obtain ⟨c, _, rfl⟩ := List.mem_map.mp hs
+    exact List.prefix_refl _
+  · intro s hs _
+    obtain ⟨c, _, rfl⟩ := List.mem_map.mp hs
+    rfl
+
+theorem live_inv {valid : List Char → Bool} {top : Server} {maxR : Nat} (c0 : Int) {script : List (Server × Conn)}
+    (hwf : WellFormed valid top) (hgrow : Grows script top) (hraw : ∀ s ∈ script, s.2.raw = none) :
+    Inv top c0 (runLive (client valid maxR) { last := c0 } script).1 ∧
+    (runLive (client valid maxR) { last := c0 } script).2 ≠ .errParse ∧
+    ReqsOk c0 (runLive (client valid maxR) { last := c0 } script).1 ∧
+    (runLive (client valid maxR) { last := c0 } script).1.reqs.length ≤ script.length := by
+  obtain ⟨g1, g2, g3, g4⟩ := runLive_inv (P := client valid maxR) (ctx_of isBreak_ok hwf (json_no_isBreak hwf)) c0 script
+    { last := c0 } { log := [] } (inv_init _ c0) List.nil_prefix (fun _ _ => List.nil_prefix) hgrow.chain hgrow.below hraw
+  exact ⟨g1, g2, g3 ⟨[], by simp, by simp, rfl⟩, by simpa using g4⟩
+
+/-- **Never twice, never out of order, never a gap -- while the run is still producing events.**
+For every history of the log and every script whatsoever (drops at any byte, refusals, timeouts,
+status codes, exhausted budget, script cut short): what has been yielded is a prefix of the events
+of the FINAL log after `c0`, `last` is the sequence of the last item yielded, and the stream never
+dies of a validation error. -/
+theorem _root_.C17_live_never_duplicates (valid : List Char → Bool) (top : Server) (maxR : Nat) (c0 : Int)
+    (script : List (Server × Conn)) (hwf : WellFormed valid top) (hgrow : Grows script top)
+    (hraw : ∀ s ∈ script, s.2.raw = none) :
+    let r := runLive (client valid maxR) { last := c0 } script
+    (∃ j, r.1.out = emit ((expected top c0).take j) ∧ r.1.last = lastOf c0 ((expected top c0).take j)) ∧
+    r.2 ≠ .errParse := by
+  intro r
+  rw [expected_eq hwf.log]
+  obtain ⟨g1, g2, _, _⟩ := live_inv (maxR := maxR) c0 hwf hgrow hraw
+  exact ⟨g1, g2⟩
+
+/-- **Exactly once over a growing log**: refusals and drops at any byte within the budget while the
+log grows, then an undisturbed connection that sees the final log: exactly the events of the final
+log after `c0`, in order, once each, each showing its own sequence. -/
+theorem _root_.C17_live_exactly_once (valid : List Char → Bool) (top : Server) (maxR : Nat) (c0 : Int)
+    (drops : List (Server × Conn)) (fin : List Nat)
+    (hwf : WellFormed valid top) (hgrow : Grows drops top) (hsettled : Settled drops top)
+    (hdrops : DropsOnly (drops.map (·.2))) (hbud : peakFailures 0 (drops.map (·.2.fault)) ≤ maxR) :
+    let r := runLive (client valid maxR) { last := c0 } (drops ++ [(top, quiet fin)])
+    r.1.out = emit (expected top c0) ∧ r.1.last = lastOf c0 (expected top c0) ∧
+    (r.2 = .done ∨ r.2 = .pending) ∧ (top.log.any (·.terminal) = true → r.2 = .done) := by
+  intro r
+  rw [expected_eq hwf.log]
+  exact runLive_exact (P := client valid maxR) (ctx_of isBreak_ok hwf (json_no_isBreak hwf)) c0 fin drops
+    { last := c0 } { log := [] } (inv_init _ c0) List.nil_prefix (fun _ _ => List.nil_prefix) hgrow.chain hgrow.below
+    hsettled hdrops hbud
+
+/-- **Every reconnect asks for exactly what is missing.**  For every history and every script: at
+most one request per scripted connection; the first one carries the start cursor; the `i`-th one
+carries the `last_sequence` the consumer reads after `ks[i]` yields, for moments `ks` that only
+move forward (so each cursor is the start cursor or the sequence of an event already queued); the
+cursor never goes back. -/
+theorem _root_.C17_reconnect_cursors (valid : List Char → Bool) (top : Server) (maxR : Nat) (c0 : Int)
+    (script : List (Server × Conn)) (hwf : WellFormed valid top) (hgrow : Grows script top)
+    (hraw : ∀ s ∈ script, s.2.raw = none) :
+    let r := runLive (client valid maxR) { last := c0 } script
+    r.1.reqs.length ≤ script.length ∧ (script ≠ [] → r.1.reqs.head? = some c0) ∧
+    (∃ ks : List Nat, ks.Pairwise (· ≤ ·) ∧ (∀ k ∈ ks, k ≤ r.1.out.length) ∧
+      r.1.reqs = ks.map (streamLast c0 r.1.out)) ∧
+    r.1.reqs.Pairwise (· ≤ ·) := by
+  intro r
+  obtain ⟨⟨j, ho, _⟩, _, ⟨ks, k1, k2, k3⟩, g4⟩ := live_inv (maxR := maxR) c0 hwf hgrow hraw
+  refine ⟨g4, fun hne => runLive_reqs_head script hne { last := c0 } rfl, ⟨ks, k1, k2, k3⟩, ?_⟩
+  show (runLive (client valid maxR) { last := c0 } script).1.reqs.Pairwise (· ≤ ·)
+  rw [k3, ho]
+  have hlog : LogOk (top.later c0) := later_eq top c0 ▸ hwf.log.aft c0
+  refine reqs_monotone (List.Pairwise.sublist (List.take_sublist _ _) hlog) ?_ k1
+  intro e he
+  simpa using (List.mem_filter.mp (List.mem_of_mem_take he)).2
+
+/-- **`last_sequence` at every yield**: for every history and script, after the consumer has been
+handed `k` items (any `k` up to what was queued), `EventStream.last_sequence` is the sequence of
+the `k`-th event of the final log after `c0` -- the start cursor for `k = 0`. -/
+theorem _root_.C17_last_sequence_at_every_yield (valid : List Char → Bool) (top : Server) (maxR : Nat) (c0 : Int)
+    (script : List (Server × Conn)) (hwf : WellFormed valid top) (hgrow : Grows script top)
+    (hraw : ∀ s ∈ script, s.2.raw = none) :
+    let r := runLive (client valid maxR) { last := c0 } script
+    ∀ k, k ≤ r.1.out.length → streamLast c0 r.1.out k = lastOf c0 ((expected top c0).take k) := by
+  intro r k hk
+  obtain ⟨⟨j, ho, _⟩, _⟩ := C17_live_never_duplicates valid top maxR c0 script hwf hgrow hraw
+  have ho' : r.1.out = emit ((expected top c0).take j) := ho
+  rw [ho'] at hk ⊢
+  rw [streamLast_emit, List.take_take]
+  have : (emit ((expected top c0).take j)).length = ((expected top c0).take j).length := by simp [emit]
+  rw [this, List.length_take] at hk
+  congr 2
+  omega
+
+/-! ## the client's line iterator and the text of the cursor -/
+
+/-- **Chunk boundaries do not matter**: however the decoded text of a connection is cut into
+`aiter_text` chunks (empty ones included), `_iter_sse_lines` hands the frame parser the lines of
+the whole text -- the expression `connect` uses. -/
+theorem _root_.C17_chunking_irrelevant (brk : Char → Bool) (eof : Bool) (chunks : List (List Char)) :
+    chunkedLines brk eof chunks =
+      (let sp := splitLines brk chunks.flatten
+       if eof && !sp.2.isEmpty then sp.1 ++ [sp.2] else sp.1) :=
+  chunkedLines_eq eof chunks
+
+/-- **The cursor survives the trip**: the server's `int(after_sequence_str)` reads back the
+`str(last_sequence)` the reader sent, for every integer; the text consists of `-` and ASCII digits
+only (so it is not `now` in any letter case, and no 400). -/
+theorem _root_.C17_cursor_text_roundtrip (n : Int) :
+    pyInt? (pyStr n) = some n ∧ ∀ c ∈ pyStr n, c = '-' ∨ ('0' ≤ c ∧ c ≤ '9') := by
+  refine ⟨pyInt_pyStr n, ?_⟩
+  intro c hc
+  rcases pyStr_chars n c hc with h | ⟨d, hd, rfl⟩
+  · exact Or.inl h
+  · right
+    have : ∀ d, d < 10 → ('0' ≤ digitChar d ∧ digitChar d ≤ '9') := by decide
+    exact this d hd
+
 /-! ## the pre-fix reader (F29) -/
 
 /-- the exactly-once clause for a reader that ends lines where `httpx`'s `aiter_lines` does -/
@@ -269,6 +404,62 @@ example : peakFailures 0 ([Fault.dropAt 41, Fault.refuse]) = 2 := by decide
 
 /-- a timeout script for `C17_never_duplicates` (hypotheses: any script with `raw = none`) -/
 example : (run (client exValid 3) exSrv { last := 0 } [{ fault := .timeoutAt 20 }]).2 = .errTimeout := by
+  decide +kernel
+
+/-! ## non-vacuity: growing log, cursors, chunks, cursor text -/
+
+/-- a history: the first connection sees one event and is cut inside its `id:` line, a refusal, then
+the second event has been appended and the connection is cut one byte into the third frame's
+predecessor, the stop event arrives while the client is being refused -/
+def exLive : List (Server × Conn) :=
+  [({ log := exSrv.log.take 1 }, { fault := .dropAt 3 }), ({ log := exSrv.log.take 1 }, { fault := .refuse }),
+   ({ log := exSrv.log.take 2 }, { fault := .dropAt 41 }), ({ log := exSrv.log.take 2 }, { fault := .dropAt 60, hb := [0, 1] }),
+   (exSrv, { fault := .refuse })]
+
+theorem ex_grows : Grows exLive exSrv := by
+  refine ⟨?_, ?_⟩
+  · decide
+  · decide
+
+theorem ex_live_dropsOnly : DropsOnly (exLive.map (·.2)) := by
+  intro c hc
+  simp only [exLive, List.map_cons, List.map_nil, List.mem_cons, List.not_mem_nil, or_false] at hc
+  rcases hc with rfl | rfl | rfl | rfl | rfl <;> simp
+
+example : Grows exLive exSrv ∧ Settled exLive exSrv ∧ DropsOnly (exLive.map (·.2)) ∧
+    peakFailures 0 (exLive.map (·.2.fault)) ≤ 2 ∧ WellFormed exValid exSrv :=
+  ⟨ex_grows, by unfold Settled; decide, ex_live_dropsOnly, by decide, ex_wellFormed⟩
+
+example : runLive (client exValid 2) { last := -1 } (exLive ++ [(exSrv, quiet [])])
+    = ({ last := 4, attempts := 0, out := [(0, exPayload0), (1, exPayload1), (4, exStop)], reqs := [-1, -1, -1, 0, 1, 1] }, .done) := by
+  decide +kernel
+
+/-- `C17_reconnect_cursors` on that run: six requests for six connections, the moments are
+`ks = [0, 0, 0, 1, 2, 2]` -/
+example : (runLive (client exValid 2) { last := -1 } (exLive ++ [(exSrv, quiet [])])).1.reqs
+    = [0, 0, 0, 1, 2, 2].map (streamLast (-1) [(0, exPayload0), (1, exPayload1), (4, exStop)]) := by
+  decide +kernel
+
+/-- a history that ends badly (`C17_live_never_duplicates`, `C17_last_sequence_at_every_yield`):
+a read timeout after the second event while the third is not yet in the log -/
+example : runLive (client exValid 3) { last := -1 }
+      [({ log := exSrv.log.take 1 }, { fault := .dropAt 41 }), ({ log := exSrv.log.take 2 }, { fault := .timeoutAt 30 })]
+    = ({ last := 1, attempts := 0, out := [(0, exPayload0), (1, exPayload1)], reqs := [-1, 0] }, .errTimeout)
+    ∧ streamLast (-1) [(0, exPayload0), (1, exPayload1)] 0 = -1 ∧ streamLast (-1) [(0, exPayload0), (1, exPayload1)] 1 = 0
+    ∧ streamLast (-1) [(0, exPayload0), (1, exPayload1)] 2 = 1 := by
+  decide +kernel
+
+/-- `C17_chunking_irrelevant`: a frame cut inside `data`, an empty chunk, a chunk holding two line
+ends and an unterminated tail -/
+example : chunkedLines isBreak true ["id: 1\nda".toList, [], "ta: {}\n\nx".toList]
+      = ["id: 1".toList, "data: {}".toList, [], "x".toList]
+    ∧ chunkedLines isBreak false ["id: 1\nda".toList, [], "ta: {}\n\nx".toList]
+      = ["id: 1".toList, "data: {}".toList, []]
+    ∧ (iterLines isBreak [] ["id: 1\nda".toList]).2 = "da".toList := by
+  decide +kernel
+
+/-- `C17_cursor_text_roundtrip` -/
+example : pyStr (-1) = "-1".toList ∧ pyStr 0 = "0".toList ∧ pyStr 1204 = "1204".toList ∧ pyInt? "-12".toList = some (-12) := by
   decide +kernel
 
 end SseClient
